@@ -69,6 +69,34 @@ def run(ctx):
                 ctx.count(json.dumps(t["consts"], sort_keys=True) if nontrivial(t["consts"]) else None, n=sum(len(e["variants"]) for e in t["events"]))
             ctx.notes.append("%d x %d canonical layouts (modulo renaming of servers in their class and of shares): %d" % (ms, mt, len(ctraces)))
             judge(ctx, ctraces, (), batch=20000)
+    # whole uploads on fault-free grids (C07's last sentence): the server selector, not only the planner function
+    nup = 70 if q else 900
+    up = ctx.impl("harness/upload_driver.py", ["--n", nup, "--profiles", "capacity,clean"], timeout=3000)["traces"]
+    ff = 0
+    for t in up:
+        c = t["consts"]
+        ff += bool(c.get("faultfree"))
+        ctx.count("upload:" + json.dumps([c["modes"], c["k"], c["n"], c["happy"], c["size"]], sort_keys=True) if c["profile"] == "capacity" else None)
+    captured = []
+    ctx.report = lambda key, what, replay=None: captured.append((key, what, replay))
+    try:
+        ctx.trace("immutable/TraceUpload", up, invariants=("C06_NoPartialVisible_everywhere",), workers=4, batch=1000, timeout=3000,
+                  key_of=lambda tr, l, clause: "trace:%s:%s" % (clause, tr["consts"]["profile"]),
+                  what_of=lambda tr, l, clause: "fault-free upload k=%d n=%d happy=%d on servers %s was declared unhappy although a happy layout exists: %s"
+                  % (tr["consts"]["k"], tr["consts"]["n"], tr["consts"]["happy"], json.dumps(tr["consts"]["modes"], sort_keys=True),
+                     json.dumps(tr["events"][l - 1])[:300]))
+    finally:
+        del ctx.report
+    sib = set()
+    for key, wh, replay in captured:
+        if ":C07_" in key:
+            ctx.report(key, wh, replay)
+        else:
+            sib.add(key)
+    if sib:
+        ctx.notes.append("upload traces cut short by clauses of the sibling property C06 (reported by its own check): %s" % sorted(sib))
+    ctx.notes.append("upload leg: %d real uploads on fault-free grids (%d with truthfully advertised space only), among them servers with room for "
+                     "exactly one share; an unhappiness failure where a happy layout exists is C07_UnhappyThoughReachable" % (len(up), ff))
     ctx.rule = ("GEN: every layout of the shapes (servers x shares) %s with >= 1 writable server, any read-only subset, any existing-share "
                 "relation, modulo renaming of servers within their class; each replayed into share_placement under %d namings/insertion "
                 "orders (str/bytes/hex/int ids, ascending/descending/shuffled dict order), distinct results judged by TLC. TRACE: %d seeded "
